@@ -414,6 +414,9 @@ def oracle(ctx, boost):
     check_gather(ctx, "gather-vs-rule", "property", "spec")
     check_scores(ctx, ncases=ctx.n(3, 9) * (3 if boost else 1))
     check_single_nan(ctx)
+    # several requests on ONE contingency manager: a later request must not be answered from an earlier one
+    from sv.props import c09 as _c09
+    _c09.oracle_sequences(ctx, ctx.n(30, 400) * (3 if boost else 1), prop="C01")
     check_f9(ctx)
 
 
